@@ -685,6 +685,7 @@ def run(ctx):
             ctx.fail("C13-R2", b.path, "output", "the LPC coefficients are not formed as a[k-1] = -(P+Q)/2, shifted with a sign change and completed by a[0] = 1 (recognised: %s)" % {k_: bool(v) for k_, v in got.items()}, b.loc())
         # chain inputs
         ins = {}
+        ins_e = {}
         for bb, i, st, root, ip, val in rec:
             if ip == zero and root in chains:
                 par = None
@@ -694,6 +695,7 @@ def run(ctx):
                         if c[0] == "bin" and c[1] == "Eq" and c[2][0] == "bin" and c[2][1] == "Rem" and c[3][0] == "c":
                             par = "odd" if ((c[3][1] == 1) == pos) else "even"
                 ins[(chains[root]["c"], par)] = show(val)
+                ins_e[(chains[root]["c"], par)] = (val, bb, i)
         want_in = {(1, "odd"): "xx", (2, "odd"): "Sub(xx, xff)", (1, "even"): "Add(xx, xf)", (2, "even"): "Sub(xx, xf)"}
         def canon_in(s_):
             import re as _re
@@ -705,6 +707,79 @@ def run(ctx):
             ctx.ok("C13-R2", "chain inputs: even order x + x[-1] and x - x[-1]; odd order x and x - x[-2]", b.loc())
         else:
             ctx.fail("C13-R2", b.path, "chain inputs", "the inputs of the two chains are %s, expected even: (x + x1, x - x1), odd: (x, x - x2)" % ins, b.loc())
+        # what the two delayed inputs hold: x1 <- x after its last use of the iteration, and (odd
+        # order) x2 <- x1 *before* that, so that x2 is the input of two samples ago
+        def _var_of(e):
+            return e[3][1] if e[0] == "bin" and e[3][0] == "var" and isinstance(e[3][1], int) else None
+        v1 = _var_of(ins_e[(2, "even")][0]) if (2, "even") in ins_e else None
+        v2 = _var_of(ins_e[(2, "odd")][0]) if (2, "odd") in ins_e else None
+        xin = ins_e[(1, "odd")][0] if (1, "odd") in ins_e else None
+        if v1 is not None and v2 is not None and xin is not None and v1 != v2:
+            def loop_defs(l):
+                return [d for d in b.defs().get(l, []) if not b.is_cleanup(d[0]) and d[1] != "term" and any(g[0] == "some" for g in paths.guards(b, d[0], eb))]
+            def init_zero(l):
+                ds = [d for d in b.defs().get(l, []) if not b.is_cleanup(d[0]) and d not in loop_defs(l)]
+                return len(ds) == 1 and ds[0][1] != "term" and eb.at(ds[0][0], ds[0][1]).rvalue(ds[0][2]["rv"])[0] == "c" and float(eb.at(ds[0][0], ds[0][1]).rvalue(ds[0][2]["rv"])[1]) == 0.0
+            def before(a_, c_):
+                return (a_[0] == c_[0] and a_[1] < c_[1]) or (a_[0] != c_[0] and a_[0] in b.dominators().get(c_[0], ()))
+            d1s, d2s = loop_defs(v1), loop_defs(v2)
+            okd = bool(d1s) and bool(d2s) and init_zero(v1) and init_zero(v2)
+            why = "missing update or non-zero start"
+            if okd:
+                for d in d1s:
+                    if eb.at(d[0], d[1]).rvalue(d[2]["rv"]) != xin:
+                        okd, why = False, "x1 <- %s, expected the current input" % show(eb.at(d[0], d[1]).rvalue(d[2]["rv"]))[:40]
+                for d in d2s:
+                    if eb.at(d[0], d[1]).rvalue(d[2]["rv"]) != ("var", v1, b.local_name(v1)):
+                        okd, why = False, "x2 <- %s, expected x1" % show(eb.at(d[0], d[1]).rvalue(d[2]["rv"]))[:40]
+            if okd:
+                # every x2 update reads x1 before x1 is overwritten on its path (the read point is
+                # where the value is loaded - for `(x2, x1) = (x1, x)` that is the tuple's construction)
+                def read_point(d):
+                    bb_, i_, st_ = d
+                    n_ = 0
+                    while n_ < 6:
+                        n_ += 1
+                        rv_ = st_["rv"]
+                        if rv_["k"] != "use" or rv_["op"].get("k") not in ("copy", "move"):
+                            break
+                        l_ = rv_["op"]["place"]["local"]
+                        if l_ == v1:
+                            break
+                        ds_ = [x for x in b.defs().get(l_, []) if not b.is_cleanup(x[0]) and x[1] != "term"]
+                        if len(ds_) != 1:
+                            break
+                        bb_, i_, st_ = ds_[0]
+                    return (bb_, i_)
+                for d2 in d2s:
+                    rp = read_point(d2)
+                    fol = [d1 for d1 in d1s if before(rp, (d1[0], d1[1]))]
+                    pre = [d1 for d1 in d1s if before((d1[0], d1[1]), rp)]
+                    if pre or not fol:
+                        okd, why = False, "x2 <- x1 runs after x1 <- x: x2 then holds the previous input, not the one before it"
+                # the updates come after the inputs were formed
+                for key in ((1, "odd"), (2, "odd"), (1, "even"), (2, "even")):
+                    if key in ins_e:
+                        _, ibb, ii = ins_e[key]
+                        for d in d1s + d2s:
+                            if before((d[0], d[1]), (ibb, ii)):
+                                okd, why = False, "a delayed input is overwritten before the chain inputs of the iteration are formed"
+                # odd order updates both, even order at least x1
+                def under(d, parity):
+                    for g in paths.guards(b, d[0], eb):
+                        if g[0] in ("true", "false"):
+                            pos, c = paths.bool_atoms(g)
+                            if c[0] == "bin" and c[1] == "Eq" and c[2][0] == "bin" and c[2][1] == "Rem" and c[3][0] == "c":
+                                return ("odd" if ((c[3][1] == 1) == pos) else "even") == parity
+                    return True
+                if okd and not (any(under(d, "odd") for d in d2s) and any(under(d, "odd") for d in d1s) and any(under(d, "even") for d in d1s)):
+                    okd, why = False, "a delayed input is not updated for one of the parities"
+            if okd:
+                ctx.ok("C13-R2", "delayed inputs: x1 <- x at the end of the iteration, x2 <- x1 before it (both from 0)", b.loc())
+            else:
+                ctx.fail("C13-R2", b.path, "delayed inputs", "the delayed inputs x[-1] / x[-2] are not maintained as x2 <- x1, then x1 <- x after the chain inputs are formed (%s): for odd order Q(z) needs 1 - z^-2" % why, b.loc())
+        elif struct == wstruct:
+            ctx.fail("C13-R2", b.path, "delayed inputs", "cannot identify the two delayed-input variables of lsp2lpc", b.loc())
 
     # ---- R3
     g = cm.body_or_fail(ctx, p, "C13-R3", LSP + "lsp2mgc")
